@@ -511,6 +511,13 @@ fn exec(st: &mut St, t: &[&str]) -> String {
             }
             _ => panic!("SCRIPT: hread on non-reader"),
         },
+        "hreadall" => match st.handles.get_mut(t[1]) {
+            Some(Handle::R(h)) => {
+                let mut buf = vec![];
+                match h.read_to_end(&mut buf) { Ok(k) => format!("ok:{}:{}", k, hex(&buf)), Err(e) => ioerr(&e) }
+            }
+            _ => panic!("SCRIPT: hreadall on non-reader"),
+        },
         "hdrop" => { st.handles.remove(t[1]); "ok".into() }
         "wopen" => match p(st, t[2]).walk_dir() { Ok(w) => { st.walks.insert(t[1].to_string(), w); "ok".into() } Err(e) => err(&e) },
         "wnext" => match st.walks.get_mut(t[1]).expect("SCRIPT: no walk handle").next() {
